@@ -17,7 +17,7 @@ def generate(shim):
     body = ["namespace RbModel.Gen.Hangul",
             "/-! constants of ot_shaper_hangul.rs as compiled (hook `verif::hangul::constants`, `feature_ids`) -/"]
     for n, v in zip(CONSTS, cs):
-        body.append(f"def {n} : Nat := {int(v)}")
+        body.append(f"abbrev {n} : Nat := {int(v)}")
     body.append("/-! maximal ranges (inclusive) on which each predicate answers true, scanned over 0..=0x10FFFF -/")
     for n, r in zip(PREDS, rs):
         items = [] if r == "-" else [tuple(map(int, x.split("-"))) for x in r.split(",")]
